@@ -283,6 +283,7 @@ def run(pid, tier, seed):
 
     mismatches, violations, known_hits = [], [], {}
     nontrivial, evaluated = set(), 0
+    dist_ops, dist_outcomes, dist_len, dist_stream = {}, {}, {}, {}      # what the generated inputs look like
     samples = []
     CHUNK = 1500       # outputs with state dumps are large: never hold more than one chunk of them
     for prof, chunk in [(p_, hist[i:i + CHUNK]) for p_ in spec["profiles"] for i in range(0, len(hist), CHUNK)]:
@@ -296,6 +297,16 @@ def run(pid, tier, seed):
             ml = ec.normalise(mo.get(hid, []))
             il = ec.normalise(io.get(hid, []))
             iops, itail = T.parse_trace(io.get(hid, []))
+            if prof == spec["profiles"][0]:
+                dist_stream[hid.rsplit("-", 1)[0]] = dist_stream.get(hid.rsplit("-", 1)[0], 0) + 1
+                b = min(len(lines) // 10 * 10, 90)
+                dist_len[f"{b}-{b + 9}" if b < 90 else "90+"] = dist_len.get(f"{b}-{b + 9}" if b < 90 else "90+", 0) + 1
+                for l in lines:
+                    w = l.split(" ", 1)[0]
+                    dist_ops[w] = dist_ops.get(w, 0) + 1
+            for o_ in iops:
+                k_ = "ok" if not o_.result.startswith("panic") else "panic:" + (o_.result.split()[1] if len(o_.result.split()) > 1 else "?")
+                dist_outcomes[k_] = dist_outcomes.get(k_, 0) + 1
             if spec["nontrivial"](lines, iops):
                 nontrivial.add(hashlib.sha1("\n".join(lines).encode()).hexdigest())
             pm = proj(ml, lines, **spec["proj"])
@@ -353,6 +364,9 @@ def run(pid, tier, seed):
         explanation="Correspondence of the Gallina engine model with the crate on generated histories plus the python oracle "
                     "for %s; %s" % (spec["title"], "theorems: " + ", ".join(pinned) if pinned else "no Coq theorem is claimed for this property yet"),
         proof_problems=problems if pinned else [],
+        input_distribution=dict(histories_per_stream=dist_stream, history_length=dict(sorted(dist_len.items())),
+                                operations=dict(sorted(dist_ops.items(), key=lambda kv: -kv[1])),
+                                operation_outcomes_on_the_crate=dict(sorted(dist_outcomes.items(), key=lambda kv: -kv[1])[:25])),
     )
     vlib.write_evidence(pid, tier, seed, level, cov,
                         ["user functions are the pure families of Model/Base.v mirrored in the harness",
